@@ -94,6 +94,9 @@ def motif_spec(name):
         "bare+hub2": dict(sizes=[2, 1, 2], indices=[[0], [1, 2]], builds=[bare_edge, hub2], names=[bare_edge_name, hub2_names]),
         "diamond5": dict(sizes=[2, 2], indices=[[0, 1]], builds=[diamond5], names=[diamond5_names]),
         "edge1": dict(sizes=[2], indices=[[0]], builds=[single_edge_list], names=[single_edge_list_names]),
+        # naming callbacks that return one-shot iterators (a generator, itertools.repeat) instead of tuples
+        "tri-gen": dict(sizes=[3], indices=[[0]], builds=[tri], names=[lambda: (n for n in ("g1", "g2", "g3"))]),
+        "path2-repeat": dict(sizes=[3], indices=[[0]], builds=[path2], names=[lambda: itertools.repeat("p", 2)]),
         # bare edge whose naming callback returns the per-edge form (one name in a tuple)
         "bare-t": dict(sizes=[2], indices=[[0]], builds=[bare_edge], names=[lambda: ("2-clique",)]),
         # a multi-orbit motif FOLLOWED by another motif (motif position != orbit index)
